@@ -58,7 +58,7 @@ NO_RAISE = {
     "builtins.any": "iteration only", "builtins.all": "iteration only", "builtins.dict": "from pairs / keywords",
     "builtins.enumerate": "lazy", "builtins.isinstance": "total", "builtins.len": "total on sized values",
     "builtins.list": "iteration only (a raising iterator is followed through its own call)", "builtins.tuple": "iteration only",
-    "builtins.set": "elements are texts / tuples of texts (hashable)", "builtins.sorted": "elements are texts of one kind",
+    "builtins.set": "elements are texts / tuples of texts (hashable)", "builtins.frozenset": "as builtins.set", "builtins.sorted": "elements are texts of one kind",
     "builtins.max": "always called with two arguments", "builtins.min": "always called with two arguments",
     "builtins.next": "only next(<token stream>) and next(x, default): token loops stop at the end marker the tokenizer always "
                      "delivers - decided by the token-sequence tables (C01 O1.5, C02 O2.8/O2.9, C09 O9.7, C11 O11.3), where a "
